@@ -442,12 +442,6 @@ theorem C01_linear_range_exact (t : Tie) (c : LinCfg) (h : c.signFn = false) (hq
     obtain ⟨k, h1, h2, hk⟩ := C01_linear_on_lattice t c h x
     exact ⟨k, ⟨h1, h2⟩, hk.symm⟩
 
-/-- element `j` of the output row is channel `j`'s scalar quantizer -/
-theorem qlinearPC_getElem (t : Tie) (c : LinCfg) (as row : List ℚ) (j : ℕ) (hj : j < as.length)
-    (hr : j < row.length) :
-    (qlinearPC t c as row)[j]'(by simp [qlinearPC]; omega) = qlinear t (c.chan as[j]) row[j] := by
-  simp [qlinearPC]
-
 /-- every element is a code of ITS channel's format: `k · alpha_j · 2^(integer − ub)` -/
 theorem C01_linear_pc_on_lattice (t : Tie) (c : LinCfg) (h : c.signFn = false) (as row : List ℚ) (j : ℕ)
     (hj : j < as.length) (hr : j < row.length) :
@@ -522,12 +516,29 @@ theorem C01_linear_pc_range_last_counterexample :
     qlinearRangeLast c [1/2, 1, 2] = some [0, 1/2, -1] ∧ qlinear .even (c.chan (1/2)) (-3) = -1/4 := by
   refine ⟨by decide +kernel, by decide +kernel⟩
 
-/-! ### quantized_bits with a per-channel scale -/
+/-! ### the quantized_linear object: which attributes are live -/
 
-theorem qbitsPC_getElem (t : Tie) (c : BitsCfg) (as row : List ℚ) (j : ℕ) (hj : j < as.length)
-    (hr : j < row.length) :
-    (qbitsPC t c as row)[j]'(by simp [qbitsPC]; omega) = qbits t (c.chan as[j]) row[j] := by
-  simp [qbitsPC]
+theorem C01_linear_obj_fresh (t : Tie) (c : LinCfg) (x : ℚ) :
+    (LinObj.construct c).call t x = qlinear t c x := rfl
+
+/-- `symmetric` assigned after construction is honoured (read by `get_clip_bounds` in every call) -/
+theorem C01_linear_obj_symmetric_live (t : Tie) (c : LinCfg) (s : Bool) (x : ℚ) :
+    ((LinObj.construct c).setSymmetric s).call t x = qlinear t { c with symmetric := s } x := rfl
+
+/-- COUNTEREXAMPLE (known finding C01-linear-alpha-reassign): `alpha` assigned after construction is
+    NOT honoured — the scale stored by `__init__` stays: `q = quantized_linear(4, 0, 1); q.alpha = 2.0`
+    declares the step `2 · 2^-3 = 1/4` but `q(7/8) = 7/8` -/
+theorem C01_linear_obj_alpha_stale_counterexample :
+    let c : LinCfg := { bits := 4, integer := 0, symmetric := true, keepNeg := true, alpha := none }
+    let o := (LinObj.construct c).setAlpha (some 2)
+    o.cfg.qs = 1/4 ∧ o.call .even (7/8) = 7/8 ∧ ¬ ∃ k : ℤ, (7/8 : ℚ) = (k : ℚ) * (1/4) := by
+  refine ⟨by decide +kernel, by decide +kernel, ?_⟩
+  rintro ⟨k, hk⟩
+  have : (2 : ℚ) * (k : ℚ) = 7 := by linarith
+  have : (2 : ℤ) * k = 7 := by exact_mod_cast this
+  omega
+
+/-! ### quantized_bits with a per-channel scale -/
 
 theorem C01_bits_pc_on_lattice (t : Tie) (c : BitsCfg) (h : 0 < c.ub) (as row : List ℚ) (j : ℕ)
     (hj : j < as.length) (hr : j < row.length) :
